@@ -4,6 +4,14 @@ seeded/*/meta.json and seeded/RESULTS.md."""
 import json, glob, os, re
 
 NOTES = {
+ "C05-11": "missed at first: history 'the same container put again' added",
+ "C20-9": "missed at first (needs 128 values for one (epoch, peer)): a bulk operation of 130 puts added",
+ "C01-9": "missed at first (needs depth 5 from the empty state): second exploration balance-emptied-accounts with a small alphabet, depth 6",
+ "C16-12": "missed at first: update data with the caller's own integer in front of the appended version (decoy)",
+ "C16-13": "missed at first: legacy ring with a gap (history enlarged from 4 to 6, slots 2 and 3 not written yet)",
+ "C04-10": "missed at first: a domain of the alias zone registered in advance by the committee, two containers asking for it",
+ "C11-9": "missed at first: an owner who appoints itself administrator, then transfers",
+ "C06-9": "missed by C06 at first (C08 caught it): third exploration netmap-tick-long-history on a Netmap that keeps 256 maps",
  "C03-8": "missed at first: a name with an administrator and the row 'sub-name for the parent's owner, signed by the administrator alone' added to C03; the same calls added to C11",
  "C09-7": "missed at first (needs two owners without an account record released by one tick): whole-balance locks of two owners added",
  "C10-8": "missed at first (needs a receiver that transfers the name on from inside onNEP11Payment): forwarding receiver contract added",
